@@ -108,7 +108,10 @@ def classify(e: BaseException | None) -> str:
 
 def expected_outcome(f: dict) -> str:
     """The property's words: the failing step's error propagates (the last failing step wins, as the
-    final save runs last and the disconnect after the body)."""
+    final save runs last and the disconnect after the body).  `cancel` = the body ends because the task
+    running the context is cancelled: that CancelledError is then what leaves the context, unless a later
+    step fails; it is an alternative to `body` and wins if both are set (the body is parked for the
+    cancellation before it would raise), as in the model's `bodyExit`."""
     if f.get("load"):
         return "loadErr"
     if f.get("connect"):
@@ -117,9 +120,16 @@ def expected_outcome(f: dict) -> str:
         return "saveErr"
     if f.get("disconnect"):
         return "disconnectErr"
+    if f.get("cancel"):
+        return "cancelled"
     if f.get("body"):
         return "bodyErr"
     return "none"
+
+
+def fault_bits(f: dict) -> str:
+    """The flags of the driver's `lnew` line: load, connect, body, disconnect, final save, body cancelled."""
+    return "".join("1" if f.get(k) else "0" for k in ("load", "connect", "body", "disconnect", "final", "cancel"))
 
 
 # ---- virtual time ----------------------------------------------------------------------------
@@ -347,9 +357,21 @@ def lands_of(pos: str) -> str:
     return "saver1" if plan is None or plan[2] else "saver0"
 
 
+def cancel_before_first_suspension(pos: str, faults: dict) -> bool:
+    """Leaving by cancellation with the saver "not started": a CancelledError can only be delivered to a body
+    that is suspended, and the saver task (queued by `create_task` before the body began) gets its first turn
+    no later than that.  The earliest possible delivery is a `cancel()` requested before the body's first
+    suspension; the saver has then just begun its first save (it is inside `open`) when `stop` cancels it."""
+    return bool(faults.get("cancel")) and pos == "not-started" and not faults.get("load") and not faults.get("connect")
+
+
 def model_schedule(pos: str, faults: dict) -> list[str]:
     if faults.get("load"):
         return ["main"]
+    if cancel_before_first_suspension(pos, faults):
+        # load, start, connect; the body changes the registry; the saver's first turn (snapshot, submits `open`);
+        # the body is cancelled; disconnect; task.cancel(); the saver is cancelled inside `open` (it took effect)
+        return ["main", "main", "main", "mutate", "saver1", "main", "main", "main", "saver1", "saver1"] + ["main"] * 5
     steps = ["main", "main"] + POSITIONS[pos][1]
     if faults.get("connect"):
         steps += ["main"]
@@ -400,6 +422,7 @@ async def run_gated(path: str, pos: str, faults: dict, periodic_fails_at=None, e
                                connect_suspends=pos != "not-started", disconnect_suspends=pos != "not-started")
     obs: dict = {"entered": False, "loaded_ok": None}
     body_parked = asyncio.Event()
+    self_cancel = cancel_before_first_suspension(pos, faults)
     before = asyncio.all_tasks()
     exc: BaseException | None = None
     gateway = None
@@ -418,11 +441,13 @@ async def run_gated(path: str, pos: str, faults: dict, periodic_fails_at=None, e
                         await clock.advance_to(clock.now + extra_ticks, lambda: settle(ctl, clock, lambda: proxy.created))
                     gateway.nodes[42] = Node(42, 17, "2.0", sketch_name="added in the body")
                     reg_at_exit = canon(gateway.nodes)
-                    if faults.get("body"):
-                        raise BodyBoom("body")
                     if faults.get("cancel"):
                         body_parked.set()
+                        if self_cancel:
+                            asyncio.current_task().cancel()     # delivered at the body's first suspension, just below
                         await asyncio.Event().wait()     # the task running the context is cancelled here
+                    if faults.get("body"):
+                        raise BodyBoom("body")
             finally:
                 if reg_at_exit is None:
                     reg_at_exit = canon(gateway.nodes)
@@ -430,9 +455,15 @@ async def run_gated(path: str, pos: str, faults: dict, periodic_fails_at=None, e
         try:
             if faults.get("cancel"):
                 # leaving the context through cancellation of the task that runs it (asyncio.timeout, Ctrl-C, ...)
+                # (with a failing load/connect the body is never reached and the statement ends by itself)
                 task = asyncio.ensure_future(context())
-                await asyncio.wait_for(body_parked.wait(), GUARD)
-                task.cancel()
+                parked = asyncio.ensure_future(body_parked.wait())
+                await asyncio.wait_for(asyncio.shield(asyncio.wait([task, parked], return_when=asyncio.FIRST_COMPLETED)), GUARD)
+                parked.cancel()
+                if not body_parked.is_set() and not task.done():
+                    raise TimeoutError
+                if not task.done() and not self_cancel:
+                    task.cancel()
                 await asyncio.wait_for(asyncio.shield(asyncio.wait([task])), GUARD)
                 if not task.done():
                     raise TimeoutError
@@ -483,9 +514,7 @@ def oracle(corr: Corr, what: str, case: dict, obs: dict, faults: dict) -> bool:
         bad.append(f"{obs['leftover_tasks']} background task(s) left running")
     if obs["entered"] and not obs["disconnect_called"]:
         bad.append("entered but disconnect was never attempted")
-    want = expected_outcome(faults)
-    if faults.get("cancel") and want == "none":
-        want = "cancelled"          # the cancellation is what leaves the context; a failing later step still wins
+    want = expected_outcome(faults)     # with `cancel`: the cancellation, unless a later step fails
     if obs["outcome"] != want and obs["outcome"] not in (("hang",) if faults.get("cancel") else ("hang", "cancelled")):
         bad.append(f"propagated {obs['outcome']} ({obs['error']}), expected {want}")
     if obs["started"] and not faults.get("final") and not obs["file_is_registry_at_exit"]:
@@ -781,10 +810,12 @@ async def run_real(path: str, kind: str, fail_connect: bool, wait_first_save: bo
 def run_c16(ctx) -> Corr:
     corr = Corr("C16", "scenarios = position of the saver when the context is left or connect fails (not started; held before/"
                 "after the effect of open, write, close of the first save; sleeping; inside the second save; after two saves) "
-                "x fault combinations (connect fails, body raises, disconnect fails, final save fails; load fails) on the real "
+                "x fault combinations (connect fails, body raises or the task running the body is cancelled, disconnect fails, "
+                "final save fails; load fails) on the real "
                 "Gateway with gated file operations and virtual time, each compared with the Lean model's run of the matching "
                 "schedule and with the property's oracle (no task left, disconnect attempted, file == registry as of exit, "
-                "right exception, never CancelledError, no hang); cadence: saves started within [0,T] >= T//900+1 for a list of "
+                "right exception, never CancelledError unless the body was cancelled and no later step failed, no hang); "
+                "cadence: saves started within [0,T] >= T//900+1 for a list of "
                 "stretches T in virtual time; plus real-aiofiles runs with every built-in transport kind offline. "
                 "non-trivial = the saver exists and is not asleep-and-idle at exit, or a fault is injected")
     rng = lib.rng_for(ctx.seed, "c16")
@@ -807,7 +838,9 @@ def run_c16(ctx) -> Corr:
     scenarios.append(("not-started", {"load": True}, "grid"))
     for pos in positions:
         for disc in (False, True):
-            scenarios.append((pos, {"cancel": True, "disconnect": disc}, "grid-cancel"))
+            for final in (False, True):
+                for body in (False, True):      # `body` with `cancel`: the cancellation comes first and wins
+                    scenarios.append((pos, {"cancel": True, "disconnect": disc, "final": final, "body": body}, "grid-cancel"))
     if ctx.tier == "thorough":
         for _ in range(200):
             pos = rng.choice(positions)
@@ -839,9 +872,8 @@ def run_c16(ctx) -> Corr:
             corr.count("outcome:" + obs["outcome"])
             corr.case((pos, tuple(sorted(faults))), pos not in ("sleeping",) or bool(faults),
                       {"position": pos, "faults": faults, "outcome": obs["outcome"], "file": obs["file"], "ok": ok})
-            if ctx.model_ok and not faults.get("cancel"):
-                bits = "".join("1" if faults.get(k) else "0" for k in ("load", "connect", "body", "disconnect", "final"))
-                model_lines.append(f"lnew {bits} 0 0")
+            if ctx.model_ok:
+                model_lines.append(f"lnew {fault_bits(faults)} 0 0")
                 model_lines.append("lrun " + ",".join(model_schedule(pos, faults)))
                 pending.append((case, obs))
 
@@ -871,7 +903,7 @@ def run_c16(ctx) -> Corr:
         if good and any(g > FIFTEEN_MINUTES for g in gaps):
             corr.violate(f"two consecutive periodic saves are more than 15 minutes apart: gaps {gaps[:5]}", {**ccase, "row": row})
     if ctx.model_ok and interval > 0:
-        model_lines.append("lnew 00000 0 0")
+        model_lines.append("lnew 000000 0 0")
         model_lines.append("lrun main,main,main,saver1,saver1,saver1,saver1")
         pending.append(({"scenario": "cadence-enter"}, {"cadence_starts": [0], "T": 0}))
         for T, steps, row in zip(stretches, cadence_schedule(stretches, interval), cad["rows"]):
